@@ -245,6 +245,15 @@ def oracle(case):
 					bad.append('the attributes username / password of the parsed element are %r, composed from %r' % (attrs, (ut, pt)))
 			except Exception as ex:
 				bad.append('reading username / password of the parsed element raised %s: %s' % (exc_name(ex), ex))
+		# the credentials handed over as the other octet-string types (bytearray, memoryview): the same field
+		for how, conv in (('bytearray', bytearray), ('memoryview', memoryview)):
+			try:
+				alt = bytes(element_cls(name)('Basic', {'username': conv(u), 'password': conv(p)}))
+				if alt != value:
+					bad.append('credentials handed over as %s compose %r, as bytes %r' % (how, alt[:80], value[:80]))
+			except Exception as ex:
+				if exc_name(ex) not in ('TypeError',):      # refusing the type is fine; composing something else is not
+					bad.append('credentials handed over as %s raised %s' % (how, exc_name(ex)))
 		if back != (u, p) or back2 != (u, p):
 			bad.append('parsed back %r / %r' % (back, back2))
 		expect = b'Basic ' + base64.b64encode(u + b':' + p)
